@@ -280,6 +280,14 @@ pub fn gen_case(t: &mut Tape, c16: bool) -> HeadCase {
                 framing = Framing::AddedTe;
                 added.insert(i, ("Transfer-Encoding".to_string(), b"chunked".to_vec()));
             }
+        } else if c16 && final_body && !orig_frames_final && t.chance(10) {
+            // both framing headers from the caller: accepted by the library (chunked wins); both must reach the wire
+            let n = t.range(0, 20);
+            framing = Framing::AddedTe;
+            let i = t.below(added.len() + 1);
+            added.insert(i, ("content-length".to_string(), n.to_string().into_bytes()));
+            let j = t.below(added.len() + 1);
+            added.insert(j, ("Transfer-Encoding".to_string(), b"chunked".to_vec()));
         } else if depth > 0 {
             // an OrigCl does not frame the final flow
             framing = match framing {
